@@ -74,12 +74,12 @@ PROPS = {
         "rule": CONN_RULE, "trusted_base": TB_COMMON, "modelled": CONN_MODELLED,
         "assumptions": ["Done channels have room for the calls they carry", "fewer than 2^64 calls per connection"],
     },
-    "C03": {"components": [{"name": "conn", "driver": "conn", "streams": ["k"]}], "rule": CONN_RULE, "trusted_base": TB_COMMON, "modelled": CONN_MODELLED,
+    "C03": {"components": [{"name": "conn", "driver": "conn", "streams": ["k"]}, {"name": "stream", "driver": "stream", "streams": ["t"]}], "rule": CONN_RULE + " | " + STREAM_RULE, "trusted_base": TB_COMMON, "modelled": CONN_MODELLED,
             "assumptions": ["'within bounded time' is a quiescence theorem plus a 3 s deadline on every blocking call in the correspondence runs", "closing a real socket unblocks a blocked Read/Write (OS)"]},
     "C05": {"components": [{"name": "conn", "driver": "conn", "streams": ["k"]}, {"name": "server", "driver": "server", "streams": ["s"]}, {"name": "poll", "driver": "", "streams": []}],
             "rule": CONN_RULE + " | " + SRV_RULE + " | " + POLL_RULE, "trusted_base": TB_COMMON, "modelled": CONN_MODELLED + " | " + SRV_MODELLED,
             "assumptions": ["client order is over completions determined by the connection (responses processed in arrival order, failures, refusals, sweep in sequence order); it equals issue order when the server answers in request order", "poll mode: S is the same automaton by a fact read from listen() (receive lock held from ReadMessage to dispatch); exercised by the poll component with concurrent workers and by the end-to-end runs"]},
-    "C06": {"components": [{"name": "conn", "driver": "conn", "streams": ["k"]}, {"name": "server", "driver": "server", "streams": ["s"]}],
+    "C06": {"components": [{"name": "conn", "driver": "conn", "streams": ["k"]}, {"name": "server", "driver": "server", "streams": ["s"]}, {"name": "stream", "driver": "stream", "streams": ["t"]}],
             "rule": CONN_RULE + " | " + SRV_RULE, "trusted_base": TB_COMMON, "modelled": CONN_MODELLED + " | " + SRV_MODELLED, "assumptions": ["error texts are non-empty"]},
     "C19": {"components": [{"name": "conn", "driver": "conn", "streams": ["k"]}], "rule": CONN_RULE, "trusted_base": TB_COMMON, "modelled": CONN_MODELLED,
             "assumptions": ["'as soon as' = cancellation is an always-enabled single step; a caller blocked inside a write (no pipelining) sees the cancellation when the write returns", "the late response of an abandoned call is still decoded into that call's own reply/buffer (observed, allowed by the property)"]},
